@@ -238,7 +238,7 @@ PROPS["C12"] = {
     "engines": [
         {"bin": "hv", "args": ["c12"]},
     ],
-    "min": {"quick": {"scenarios": 150, "handler_events_observed": 4000, "messages_dispatched_exactly_once": 2000, "broadcasts": 150, "disconnects_graceful": 400, "single_handler_thread_scenarios": 70, "unicasts_delivered": 300},
+    "min": {"quick": {"scenarios": 150, "handler_events_observed": 4000, "messages_dispatched_exactly_once": 2000, "broadcasts": 150, "disconnects_graceful": 400, "single_handler_thread_scenarios": 70, "unicasts_delivered": 300, "bulk_unicasts_intact": 6},
             "thorough": {"scenarios": 1450}},
     "assumptions": [],
     "level_text": "Scenarios of several reference WebSocket clients with random scripts run against the real AsyncWebsocketApp (linked to a real App) under varied pool sizes, poll intervals, heartbeat settings and failpoint delays; the handler-side event log and the frames each client received are checked for exactly-once connect/message/disconnect, addressing of unicasts, coverage of broadcasts, per-client order (single handler thread) and termination of run.",
